@@ -943,3 +943,61 @@ Proof.
     unfold optional_records. cbn [snd fst]. destruct r as [p|[| |]]; eexists; reflexivity.
   - rewrite Ha. cbn [bind]. rewrite Hx. reflexivity.
 Qed.
+
+(* ---- file layer ---------------------------------------------------------------------- *)
+
+(* a .cif suffix (any case) sends the file to the mmCIF reader WHATEVER the text is *)
+Theorem classify_cif_any_text : forall suffix text,
+  lower_s suffix = ".cif" -> classify_input suffix text = RCif.
+Proof. intros suffix text H. unfold classify_input. rewrite H. reflexivity. Qed.
+
+(* in particular every legal opening - comment / blank preamble, magic line, DATA_ in any case *)
+Corollary classify_legal_opening : forall suffix text,
+  lower_s suffix = ".cif" -> legal_opening text = true -> classify_input suffix text = RCif.
+Proof. intros suffix text H _. now apply classify_cif_any_text. Qed.
+
+(* and no other suffix does *)
+Theorem classify_other_suffix : forall suffix text,
+  lower_s suffix <> ".cif" -> classify_input suffix text = RPdb.
+Proof.
+  intros suffix text H. unfold classify_input.
+  destruct (String.eqb (lower_s suffix) ".cif") eqn:E; [apply String.eqb_eq in E; contradiction|reflexivity].
+Qed.
+
+Local Open Scope string_scope.
+Example file_layer_nonvacuous :
+  lower_s ".CIF" = ".cif" /\ lower_s ".Cif" = ".cif" /\
+  legal_opening ("#\#CIF_1.1" ++ nl ++ "# written by a program" ++ nl ++ nl ++ "  DATA_1ABC" ++ nl ++ "#" ++ nl) = true /\
+  legal_opening ("data_TEST" ++ nl) = true /\
+  legal_opening ("ATOM      1  N   ALA A   1" ++ nl) = false /\
+  classify_input ".CIF" ("#\#CIF_1.1" ++ nl ++ "Data_x" ++ nl) = RCif /\
+  classify_input ".mmcif" ("data_x" ++ nl) = RPdb /\ classify_input ".pdb" ("data_x" ++ nl) = RPdb.
+Proof. repeat split; vm_compute; reflexivity. Qed.
+
+(* ---- several data blocks ---------------------------------------------------------------- *)
+
+Lemma read_cif_blocks_none {O} mv (bs : list (cblock O)) acc :
+  (forall b, In b bs -> fst b = None) -> read_cif_blocks mv bs acc = Ok acc.
+Proof.
+  induction bs as [|[o pp] t IH]; intros H; [reflexivity|].
+  pose proof (H (o, pp) (or_introl eq_refl)) as E. cbn [fst] in E. subst o.
+  cbn [read_cif_blocks]. apply IH. intros b Hb. apply H. now right.
+Qed.
+
+(* blocks without atom_site (a ligand dictionary before or after the coordinates) neither abort
+   the call nor change its result: it is the result for the one block that has atoms *)
+Theorem read_cif_blocks_one_site : forall (O : Type) mv (l1 l2 : list (cblock O)) rows pre post,
+  (forall b, In b (l1 ++ l2)%list -> fst b = None) ->
+  read_cif_blocks mv (l1 ++ (Some rows, (pre, post)) :: l2)%list ([], []) = read_cif_guarded mv rows pre post.
+Proof.
+  intros O mv l1 l2 rows pre post H.
+  assert (H1 : forall b, In b l1 -> fst b = None) by (intros; apply H, in_or_app; now left).
+  assert (H2 : forall b, In b l2 -> fst b = None) by (intros; apply H, in_or_app; now right).
+  induction l1 as [|[o pp] t IH].
+  - cbn [app read_cif_blocks]. destruct (read_cif_guarded mv rows pre post) as [r|e]; cbn [bind]; [|reflexivity].
+    now apply read_cif_blocks_none.
+  - pose proof (H1 (o, pp) (or_introl eq_refl)) as E. cbn [fst] in E. subst o.
+    cbn [app read_cif_blocks]. apply IH.
+    + intros b Hb. apply H. cbn [app]. now right.
+    + intros b Hb. apply H1. now right.
+Qed.
